@@ -774,7 +774,10 @@ def execute_multi(case):
     return ok(nontrivial, sorted(labels))
 
 
-PARTS = {'seq': execute_seq, 'multi': execute_multi}
+from engines import c16firstput
+
+PARTS = {'seq': execute_seq, 'multi': execute_multi,
+         'firstput': c16firstput.execute}
 
 
 # violations that take BOUND seconds to observe are not shrunk (every
@@ -808,6 +811,9 @@ def run(ctx):
 
     ctx.explore('multi', multi_cases(), multi, n=ctx.pick(5, 150),
                 shrink_budget=0, reexecute_confirm=1)
+    # threads of one process racing on their first put (lazy feeder start)
+    ctx.explore('firstput', c16firstput.cases(), c16firstput.execute,
+                n=ctx.pick(12, 300), shrink_budget=0)
 
 
 def _keep_failure(ctx, case, out):
